@@ -1,0 +1,213 @@
+//go:build verif
+
+// Contracts for the deductive checks in /verif (comment-only). Syntax: /verif/DESIGN.md 2.3.
+// Scope: cli/options.go (C17: project name and project environment precedence).
+
+// Inactive clauses are written `//@?` and are always placed directly after the `func` / `nopanic` / `loop`
+// line of their block (never after an active requires/ensures/invariant): the govc snapshot treats an
+// unknown line that follows a clause as a continuation of that clause and would corrupt it.
+
+package cli
+
+//@ func NewProjectOptions
+//@?  nopanic[C01,C17]   // a nil option function in opts is a caller error (nilfunc), not claimed
+//@   ensures[C17] err == nil ==> result.0 != nil
+//@   ensures[C17] err != nil ==> result.0 == nil
+
+//@ spec nameHead(c int) bool = ('a' <= c && c <= 'z') || ('0' <= c && c <= '9')
+//@ spec nameChar(c int) bool = ('a' <= c && c <= 'z') || ('0' <= c && c <= '9') || c == '_' || c == '-'
+//@ spec validName(s string) bool = len(s) >= 1 && nameHead(sat(s, 0)) && (forall i int :: 0 <= i && i < len(s) ==> nameChar(sat(s, i)))
+
+//@ spec envName(m map[string]string) string = ite(has(m, "COMPOSE_PROJECT_NAME"), m["COMPOSE_PROJECT_NAME"], "")
+
+//@ func WithName$1
+//@   nopanic[C01,C17]
+//@?  ensures[C17] err == nil ==> name == "" || validName(name)   // engine: no model of regexp.FindAllString / strings.ToLower / strings.Join (n>1) behind the inlined loader.NormalizeProjectName
+//@   requires o != nil
+//@   ensures[C17] err == nil ==> o.Name == name
+//@   ensures[C17] err != nil ==> o.Name == old(o.Name)
+
+//@ func WithWorkingDirectory$1
+//@   nopanic[C01,C17]
+//@   requires o != nil
+
+//@ func WithConfigFileEnv
+//@   nopanic[C01,C17]
+//@   requires o != nil
+
+//@ func WithDefaultConfigPath
+//@   nopanic[C01,C17]
+//@   requires o != nil
+
+//@ func WithEnv$1
+//@   nopanic[C01,C17]
+//@?  ensures[C17] forall i int :: 0 <= i && i < len(env) && contains(env[i], "=") ==> has(o.Environment, env[i][0:sindex(env[i], "=")])
+//@?  ensures[C17] forall i int :: 0 <= i && i < len(env) && contains(env[i], "=") && (forall j int :: i < j && j < len(env) && contains(env[j], "=") ==> env[j][0:sindex(env[j], "=")] != env[i][0:sindex(env[i], "=")]) ==> o.Environment[env[i][0:sindex(env[i], "=")]] == env[i][sindex(env[i], "=")+1:len(env[i])]
+//@   requires o != nil && o.Environment != nil
+//@   requires !fresh(o.Environment)   // see WithOsEnv
+//@   ensures[C17] err == nil
+//@   ensures[C17] forall k string :: old(has(o.Environment, k)) ==> has(o.Environment, k)
+//@   loop 1
+//@     invariant o.Environment != nil && o.Environment == old(o.Environment)
+//@     invariant[C17] forall k string :: old(has(o.Environment, k)) ==> has(o.Environment, k)
+
+//@ func WithDiscardEnvFile
+//@   nopanic[C01,C16]
+//@   requires o != nil
+
+//@ func WithLoadOptions$1
+//@   nopanic[C01]
+//@   requires o != nil
+
+//@ func WithDefaultProfiles$1
+//@   nopanic[C01]
+//@   requires o != nil
+
+//@ func WithProfiles$1
+//@   nopanic[C01]
+//@   requires o != nil
+
+//@ func WithOsEnv
+//@   nopanic[C01,C17]
+//@   requires o != nil && o.Environment != nil
+//@   requires !fresh(o.Environment)   // always true at entry; the engine has no "entry heap is below the watermark" fact for refs read out of fields in spec terms
+//@   ensures[C17] err == nil
+//@   ensures[C17] forall k string :: old(has(o.Environment, k)) ==> has(o.Environment, k) && o.Environment[k] == old(o.Environment[k])
+//@   loop 1
+//@     invariant o.Environment != nil && o.Environment == old(o.Environment)
+//@     invariant[C17] forall k string :: old(has(o.Environment, k)) ==> has(o.Environment, k) && o.Environment[k] == old(o.Environment[k])
+
+//@ func WithEnvFile
+//@   nopanic[C01,C17]
+
+//@ func WithEnvFiles$1
+//@   nopanic[C01,C17]
+//@   requires o != nil
+
+//@ func WithDotEnv
+//@   nopanic[C01,C17]
+//@?  ensures[C17] forall k string :: old(has(o.Environment, k)) ==> has(o.Environment, k) && o.Environment[k] == old(o.Environment[k])
+//@   requires o != nil && o.Environment != nil
+
+//@ func WithInterpolation$1
+//@   nopanic[C01]
+//@   requires o != nil
+//@ func WithInterpolation$1$1
+//@   nopanic[C01]
+//@   requires options != nil
+
+//@ func WithNormalization$1
+//@   nopanic[C01]
+//@   requires o != nil
+//@ func WithNormalization$1$1
+//@   nopanic[C01]
+//@   requires options != nil
+
+//@ func WithConsistency$1
+//@   nopanic[C01]
+//@   requires o != nil
+//@ func WithConsistency$1$1
+//@   nopanic[C01]
+//@   requires options != nil
+
+//@ func WithResolvedPaths$1
+//@   nopanic[C01]
+//@   requires o != nil
+//@ func WithResolvedPaths$1$1
+//@   nopanic[C01]
+//@   requires options != nil
+
+//@ func WithResourceLoader$1
+//@   nopanic[C01]
+//@   requires o != nil
+//@ func WithResourceLoader$1$1
+//@   nopanic[C01]
+//@   requires options != nil
+
+//@ func WithExtension$1
+//@   nopanic[C01]
+//@   requires o != nil
+//@ func WithExtension$1$1
+//@   nopanic[C01]
+//@   requires options != nil
+
+//@ func (*ProjectOptions).WithListeners
+//@   nopanic[C01]
+//@   requires o != nil
+
+//@ func WithoutEnvironmentResolution
+//@   nopanic[C01]
+//@   requires o != nil
+//@ func WithoutEnvironmentResolution$1
+//@   nopanic[C01]
+//@   requires options != nil
+
+//@ func (*ProjectOptions).GetWorkingDir
+//@   nopanic[C01,C17]
+//@   requires o != nil
+
+//@ func (*ProjectOptions).ReadConfigFiles
+//@   nopanic[C01]
+//@   requires options != nil
+//@   ensures err == nil ==> result.0 != nil   // needs (loader, out of scope) LoadConfigFiles: err == nil ==> result.0 != nil
+//@   loop 1
+//@     invariant config != nil && len(configs) == len(config.ConfigFiles)
+//@   loop 2
+//@     invariant config != nil && len(configs) == len(config.ConfigFiles)
+
+//@ func (*ProjectOptions).LoadProject
+//@   nopanic[C01,C17]
+//@   requires o != nil
+
+//@ func (*ProjectOptions).LoadModel
+//@   nopanic[C01,C17]
+//@   requires o != nil
+
+//@ func (*ProjectOptions).prepare
+//@   nopanic[C01,C17]
+//@   requires o != nil
+//@   ensures err == nil ==> result.0 != nil
+
+//@ func ProjectFromOptions
+//@   nopanic[C01]
+//@   requires options != nil
+
+//@ func withNamePrecedenceLoad
+//@   nopanic[C01,C17]
+//@   requires options != nil
+
+//@ func withNamePrecedenceLoad$1
+//@   nopanic[C01,C17]
+//@?  ensures[C17] options.Name == "" && envName(options.Environment) == "" ==> opts.projectName == "" || validName(opts.projectName)   // same engine limit as WithName$1
+//@   requires options != nil
+//@   requires opts != nil
+//@   ensures[C17] options.Name != "" ==> opts.projectName == options.Name && opts.projectNameImperativelySet
+//@   ensures[C17] options.Name == "" && envName(options.Environment) != "" ==> opts.projectName == envName(options.Environment) && opts.projectNameImperativelySet
+//@   ensures[C17] options.Name == "" && envName(options.Environment) == "" ==> !opts.projectNameImperativelySet
+//@   ensures[C17] options.Name == old(options.Name)
+
+//@ func withConvertWindowsPaths
+//@   nopanic[C01]
+//@   requires options != nil
+//@ func withConvertWindowsPaths$1
+//@   nopanic[C01]
+//@   requires options != nil
+//@   requires o != nil
+
+//@ func withListeners
+//@   nopanic[C01]
+//@   requires options != nil
+//@ func withListeners$1
+//@   nopanic[C01]
+//@   requires options != nil
+//@   requires opts != nil
+
+//@ func (*ProjectOptions).getConfigPaths
+//@   nopanic[C01]
+//@   requires o != nil
+
+//@ func findFiles
+//@   nopanic[C01]
+
+//@ func absolutePaths
+//@   nopanic[C01]
